@@ -364,12 +364,18 @@ func vkC09Cfg(dir string) *config.Config {
 	return cfg
 }
 
+// vkC09LastReal: the last resolver handed out was built by the real NewResolver (not a recycled
+// instance whose start-up state the harness rebuilt by hand).
+var vkC09LastReal bool
+
 func vkC09GetResolver(dir string) *Resolver {
 	cfg := vkC09Cfg(dir)
 	if vkC09Fresh < vkC09FreshCap || len(vkC09Pool) == 0 {
 		vkC09Fresh++
+		vkC09LastReal = true
 		return NewResolver(cfg)
 	}
+	vkC09LastReal = false
 	// recycled: the start-up state NewResolver builds, rebuilt on an old instance
 	r := vkC09Pool[len(vkC09Pool)-1]
 	vkC09Pool = vkC09Pool[:len(vkC09Pool)-1]
@@ -646,6 +652,20 @@ func (w *vkC09World) apply(ev vkC09Ev) (*vkC09Viol, string) {
 		w.r = vkC09GetResolver(w.dir)
 		w.fresh = true
 		w.ref.restart()
+		if vkC09LastReal {
+			// what the new process trusts between start-up and its first refresh: a key the revocation
+			// store on disk lists must not be among it ("never published as a trust anchor again - not
+			// after restarts … configuration that still lists it")
+			o := w.observe()
+			if o.TombErr == "" {
+				for form := range o.I {
+					if b := vkC09Base(form); o.Tomb[b] {
+						return &vkC09Viol{Key: "a-revoked-key-trusted|at-startup|" + b,
+							Msg: fmt.Sprintf("after the restart, before any refresh, the new process trusts %v although the revocation store on disk lists %s as revoked", vkC09SortedKeys(o.I), b)}, "restart"
+					}
+				}
+			}
+		}
 		return nil, "restart"
 	case "corrupt":
 		path := w.statePath()
@@ -1255,4 +1275,14 @@ func vkC09MergeRef(before, after *vkC09Ref, landed bool) *vkC09Ref {
 	// revocations no record could hold are forgotten by the restart
 	m.restart()
 	return m
+}
+
+
+func vkC09SortedKeys(m map[string]bool) []string {
+	var out []string
+	for k := range m {
+		out = append(out, k)
+	}
+	sort.Strings(out)
+	return out
 }
